@@ -58,6 +58,13 @@
 //	mut calls  a call of a state-passing (receiver-mutating) method writes the updated receiver back
 //	           into the receiver operand, which must be a local the function owns (fresh pointer,
 //	           its own receiver, struct value), possibly through embedded fields.
+//	ext objects registerExtMethod2: methods of a struct or of an interface that stand for the environment
+//	           ("read": scripted answer; "call": appended to the object's ordered call log Type_calls,
+//	           scripted answer). An interface with registered methods is a Record of these fields.
+//	           context.Context operands are dropped. registerExtField2 (round 3) does the same for
+//	           function-typed fields, with one log per field.
+//	switch     break inside a switch continues after it; fallthrough is rejected.
+//	assertion  v, ok := x.(T) on a sum interface, T a registered implementation.
 //	shadowing  a local that shadows an EARLIER-declared local of the same function is rejected.
 //	capacity   not modelled: s[lo:hi] is checked against len(s) (stricter than Go's cap(s)).
 //
